@@ -51,7 +51,7 @@ def gen_cases(tier, seed):
 
 
 PROFILES = {
-    "mixed": {"dup_uid": 0.8},
+    "mixed": {"dup_uid": 0.8, "add_data_fail": 0.6},
     "churn": {"dup_uid": 1.0, "mk_object": 2.0, "remove": 4.0, "copy": 3.0, "move": 3.0, "rename": 2.0, "reopen": 2.0, "gc": 1.5, "listing": 1.5},
     "deep": {"mk_group": 5.0, "move": 4.0, "copy": 2.5, "mk_object": 2.0},
     "pg": {"add_data": 6.0, "pg_add": 4.0, "pg_remove_data": 2.0, "pg_delete": 1.0, "remove": 3.0, "copy": 2.0},
